@@ -12,9 +12,9 @@ open C16 (HMap goDel goSet goAdd Rule applyRules prefixFold NodupKeys)
 /-! ## §8 the Via modifier and what follows it -/
 
 theorem viaStep_none_iff (cfg : Cfg) (m : Nat) (h : HMap) :
-    viaStep cfg m h = none ↔ goGet h viaName ≠ [] ∧ isInfix cfg.tag (goGet h viaName) = true := by
+    viaStep cfg m h = none ↔ viaChainOf h ≠ [] ∧ isInfix cfg.tag (viaChainOf h) = true := by
   unfold viaStep
-  show (if (!(goGet h viaName).isEmpty && isInfix cfg.tag (goGet h viaName)) = true then none else some _) = none ↔ _
+  show (if (!(viaChainOf h).isEmpty && isInfix cfg.tag (viaChainOf h)) = true then none else some _) = none ↔ _
   split
   · rename_i hc
     simp only [Bool.and_eq_true, Bool.not_eq_true', List.isEmpty_eq_false_iff] at hc
@@ -30,8 +30,8 @@ def newVia (tag : Bytes) (minor : Nat) (via : Bytes) : Bytes :=
   (if via.isEmpty then [] else via ++ bs ", ") ++ ownElement tag minor
 
 theorem viaStep_some {cfg : Cfg} {m : Nat} {h h4 : HMap} (hs : viaStep cfg m h = some h4) :
-    h4 = goSet h viaName (newVia cfg.tag m (goGet h viaName)) ∧
-      ¬ (goGet h viaName ≠ [] ∧ isInfix cfg.tag (goGet h viaName) = true) := by
+    h4 = goSet h viaName (newVia cfg.tag m (viaChainOf h)) ∧
+      ¬ (viaChainOf h ≠ [] ∧ isInfix cfg.tag (viaChainOf h) = true) := by
   refine ⟨?_, fun hc => ?_⟩
   · unfold viaStep at hs
     simp only at hs
@@ -438,10 +438,11 @@ theorem outVia_writeRequest (hop : Hop) (auth : Option Bytes) (g : GoReq) (hv : 
     · exact absurd he (by simp)
   · intro e he
     split at he
-    · split at he
-      · simp only [List.mem_singleton] at he; subst he; simp [ownOutNames]
-      · exact absurd he (by simp)
-    · exact absurd he (by simp)
+    all_goals first
+      | (split at he
+         · simp only [List.mem_singleton] at he; subst he; simp [ownOutNames]
+         · exact absurd he (by simp))
+      | exact absurd he (by simp)
 
 end C18
 end FwdVerif
